@@ -14,9 +14,9 @@
 using namespace sim;
 using namespace mpt;
 
-enum { OP_WPUSH, OP_WTERM, OP_WFLUSH, OP_NET, OP_RRECV, OP_RPEEK, OP_WCRASH, OP_RPOLL };
+enum { OP_WPUSH, OP_WTERM, OP_WFLUSH, OP_NET, OP_RRECV, OP_RPEEK, OP_WCRASH, OP_RPOLL, OP_WABORT };
 enum { FL_NONE, FL_ALLOC, FL_SHORT, FL_EAGAIN, FL_EINTR };
-static const char *const OPS[] = {"W_PUSH", "W_TERM", "W_FLUSH", "NET_DELIVER", "R_RECV", "R_PEEK", "W_CRASH", "R_POLL", 0};
+static const char *const OPS[] = {"W_PUSH", "W_TERM", "W_FLUSH", "NET_DELIVER", "R_RECV", "R_PEEK", "W_CRASH", "R_POLL", "W_ABORT", 0};
 static const char *const FAULTS[] = {"none", "allocfail", "short", "eagain", "eintr", 0};
 
 struct PipeWorld : World {
@@ -88,6 +88,10 @@ struct PipeWorld : World {
 				if (iof && op.kind == OP_WFLUSH && r.chance(1, 3)) { op.fault = (int) r.range(FL_SHORT, FL_EINTR); op.fa = r.range(1, 9); }
 				if (iof && op.kind == OP_RPOLL && r.chance(1, 3)) { op.fault = (int) r.range(FL_SHORT, FL_EINTR); op.fa = r.range(1, 9); }
 			}
+		}
+		if (r.chance(1, 4) && !p.ops.empty()) {
+			// the writer gives up a message it has begun (push(1, NULL)): nothing of it may reach the reader
+			for (int n = (int) r.range(1, 3); n > 0; --n) { Op c; c.kind = OP_WABORT; p.ops.insert(p.ops.begin() + r.below(p.ops.size()), c); }
 		}
 		if (r.chance(1, 12) && !p.ops.empty()) {
 			Op c; c.kind = OP_WCRASH; c.a = r.range(0, 40);
@@ -174,6 +178,8 @@ struct PipeWorld : World {
 		size_t mi = 0, mpos = 0;          // current message, bytes of it handed to the encoder
 		std::vector<size_t> completed;    // indices of messages whose terminate succeeded
 		bool crashed = false;
+		size_t complete_bytes = 0;        // finished bytes in the write queue that belong to completed messages
+		bool partial_sent = false;        // finished blocks of the message in progress have already left the queue
 		// wire
 		std::deque<uint8_t> wire;         // flushed, not yet delivered
 		uint64_t wire_total = 0, delivered_total = 0;
@@ -259,7 +265,7 @@ struct PipeWorld : World {
 			abstract(OP_WTERM, r < 0 ? 0 : 1);
 			if (r >= 0) {
 				if (eq._state.scratch) fail("queue-state", "terminate left scratch=%zu", eq._state.scratch);
-				R.completed.push_back(R.mi); ++R.mi; R.mpos = 0;
+				R.completed.push_back(R.mi); ++R.mi; R.mpos = 0; R.complete_bytes = eq._state.done; R.partial_sent = false;
 			} else st.hit("fault:queue_full");
 			return r;
 		};
@@ -277,6 +283,7 @@ struct PipeWorld : World {
 			{ Sut s; rc = mpt_queue_crop(&eq, 0, k); }
 			if (rc < 0) fail("queue-state", "cannot crop %zu finished bytes from encode queue (len %zu)", k, eq.len);
 			eq._state.done -= k;
+			if (k > R.complete_bytes) { R.partial_sent = true; R.complete_bytes = 0; } else R.complete_bytes -= k;
 			check_queue(eq, "encode");
 			for (uint8_t b : buf) R.wire.push_back(b);
 			R.wire_total += k;
@@ -384,6 +391,25 @@ struct PipeWorld : World {
 			case OP_WTERM:
 				if (R.crashed || R.mi >= R.msgs.size() || R.mpos < R.msgs[R.mi].size()) break;
 				st.hit("op:W_TERM"); w_term(); break;
+			case OP_WABORT: {
+				if (R.crashed || R.mi >= R.msgs.size() || !R.mpos) break;
+				st.hit("op:W_ABORT");
+				ssize_t r; { Sut s; SUT_GUARD_ABORT(r = mpt_queue_push(&eq, 1, 0)); }
+				check_queue(eq, "encode");
+				log.ev("W_ABORT m%zu after %zu bytes -> %zd done=%zu scratch=%zu len=%zu off=%zu", R.mi, R.mpos, r, eq._state.done, eq._state.scratch, eq.len, eq.off);
+				abstract(OP_WABORT, r < 0 ? 0 : 1);
+				if (r < 0) {
+					// refusing is the honest answer once finished blocks of this message have been flushed; the message then simply continues
+					if (!R.partial_sent) fail("abort-refused", "dropping the message in progress failed (%zd) although none of it had left the queue", r);
+					st.hit("probe:abort_refused_after_partial_flush");
+					break;
+				}
+				if (R.partial_sent) fail("abort-merged", "a message whose first blocks are already on the wire was reported as dropped");
+				if (eq._state.scratch || eq.len != eq._state.done) fail("queue-state", "after dropping a message: done=%zu scratch=%zu len=%zu", eq._state.done, eq._state.scratch, eq.len);
+				if (eq._state.done != R.complete_bytes) fail("queue-state", "after dropping a message %zu finished bytes remain, %zu belong to completed messages", eq._state.done, R.complete_bytes);
+				++R.mi; R.mpos = 0;      // never completed: the reader must not see any of it
+				break;
+			}
 			case OP_WFLUSH:
 				if (R.crashed) break;
 				if (w_flush((size_t) std::max<int64_t>(op.a, 1))) st.hit("op:W_FLUSH");
@@ -527,7 +553,7 @@ struct PipeWorld : World {
 			check_queue(ws._wd, "stream write");
 			log.ev("W_TERM m%zu%s -> %zd done=%zu scratch=%zu len=%zu", R.mi, fired ? " allocfail" : "", r, ws._wd._state.done, ws._wd._state.scratch, ws._wd.len);
 			abstract(OP_WTERM, r < 0 ? 0 : 1);
-			if (r >= 0) { R.completed.push_back(R.mi); ++R.mi; R.mpos = 0; }
+			if (r >= 0) { R.completed.push_back(R.mi); ++R.mi; R.mpos = 0; R.complete_bytes = ws._wd._state.done; R.partial_sent = false; }
 			return r;
 		};
 		auto w_flush = [&](int fault, int64_t fa) -> int {
@@ -540,6 +566,7 @@ struct PipeWorld : World {
 			{ Sut s; SUT_GUARD_ABORT(r = mpt_stream_flush(&ws)); }
 			f->wfault = 0;
 			uint64_t wrote = simio::chan(ch)->written - wr_before;
+			if (wrote > R.complete_bytes) { R.partial_sent = true; R.complete_bytes = 0; } else R.complete_bytes -= (size_t) wrote;
 			{ simio::Chan *c = simio::chan(ch); for (uint64_t i = 0; i < wrote && i < c->wire.size(); ++i) if (!c->wire[c->wire.size() - 1 - i]) ++delim_count; }
 			check_queue(ws._wd, "stream write");
 			log.ev("W_FLUSH%s -> %d wrote=%llu done %zu->%zu len=%zu", fault ? FAULTS[fault] : "", r, (unsigned long long) wrote, done_before, ws._wd._state.done, ws._wd.len);
@@ -604,6 +631,22 @@ struct PipeWorld : World {
 			case OP_WTERM:
 				if (R.crashed || R.mi >= R.msgs.size() || R.mpos < R.msgs[R.mi].size()) break;
 				st.hit("op:W_TERM"); w_term(failn); break;
+			case OP_WABORT: {
+				if (R.crashed || R.mi >= R.msgs.size() || !R.mpos) break;
+				st.hit("op:W_ABORT");
+				ssize_t r; { Sut s; SUT_GUARD_ABORT(r = mpt_stream_push(&ws, 1, 0)); }
+				check_queue(ws._wd, "stream write");
+				log.ev("W_ABORT m%zu after %zu bytes -> %zd", R.mi, R.mpos, r);
+				abstract(OP_WABORT, r < 0 ? 0 : 1);
+				if (r < 0) {
+					if (!R.partial_sent) fail("abort-refused", "dropping the message in progress failed (%zd) although none of it had left the queue", r);
+					st.hit("probe:abort_refused_after_partial_flush");
+					break;
+				}
+				if (R.partial_sent) fail("abort-merged", "a message whose first blocks are already on the wire was reported as dropped");
+				++R.mi; R.mpos = 0;
+				break;
+			}
 			case OP_WFLUSH:
 				if (R.crashed) break;
 				st.hit("op:W_FLUSH");
